@@ -50,6 +50,8 @@ pub struct Scenario {
 	/// blocking point), not only preemptions: needed where many threads make the free choices
 	/// at blocking points explode
 	pub deviation_bounded: bool,
+	/// near_full: how many small entries still fit the active memtable after the prefill
+	pub room: usize,
 	/// preemption bounds (quick, thorough)
 	pub bounds: (usize, usize),
 }
@@ -69,6 +71,7 @@ pub fn scenarios(property: &str, tier: Tier) -> Vec<Scenario> {
 		vlog: false,
 		symmetric: false,
 		deviation_bounded: false,
+		room: 1,
 		bounds: (2, 3),
 	};
 	let all = vec![
@@ -83,6 +86,7 @@ pub fn scenarios(property: &str, tier: Tier) -> Vec<Scenario> {
 			property: "C05",
 			committers: vec![vec!["a0", "b0"], vec!["a1"], vec!["c0", "c1", "c2", "c3"]],
 			dup_key: true,
+			bounds: (1, 2),
 			..base.clone()
 		},
 		Scenario {
@@ -92,6 +96,18 @@ pub fn scenarios(property: &str, tier: Tier) -> Vec<Scenario> {
 			committers: vec![vec!["a0", "b0", "c0"], vec!["a1", "b1"]],
 			bg: true,
 			near_full: true,
+			..base.clone()
+		},
+		Scenario {
+			// the first batch fits the room that is left, the second does not: its rotation (and the
+			// background flush of the old memtable) must wait for the first batch's insert
+			name: "c05-rotation-overtakes-insert",
+			property: "C05",
+			bounds: (2, 2),
+			committers: vec![vec!["a0", "b0", "c0"], vec!["a1", "b1"]],
+			bg: true,
+			near_full: true,
+			room: 3,
 			..base.clone()
 		},
 		Scenario {
@@ -275,7 +291,7 @@ fn setup(sc: &Scenario) -> Result<Setup, String> {
 	if sc.near_full {
 		let fit = calibrate_near_full(&OptSet::base("sched-cal").memtable_size(4096))?;
 		// leave room for one more small entry: the multi-entry batches overflow mid-way
-		prefill = fit.saturating_sub(1);
+		prefill = fit.saturating_sub(sc.room);
 	}
 	let mut w = World::new(opt, &[])?;
 	#[allow(unused_mut)]
@@ -296,12 +312,15 @@ fn setup(sc: &Scenario) -> Result<Setup, String> {
 		// something for the reader to see, already on disk in L0
 		w.commit(&[crate::model::Write::set(b"a0", b"base")], surrealkv::Durability::Eventual)?.map_err(|e| e)?;
 		w.physical(crate::world::Phys::FlushAll)?;
+		// and a newer version that is still in the memtable: the background thread rotates and
+		// flushes it while the reader is reading
+		w.commit(&[crate::model::Write::set(b"a0", b"mem")], surrealkv::Durability::Eventual)?.map_err(|e| e)?;
 	}
 	let tree = w.tree().clone();
 	Ok(Setup {
 		world: w,
 		tree,
-		prefill_entries: prefill + usize::from(sc.reader),
+		prefill_entries: prefill + 2 * usize::from(sc.reader),
 	})
 }
 
@@ -404,13 +423,32 @@ fn run_schedule(sc: &Scenario, prefix: &[usize]) -> Result<Outcome, String> {
 	if sc.bg {
 		let tree = su.tree.clone();
 		let rt_handle = su.world.rt.as_ref().unwrap().handle().clone();
+		let rotate_first = sc.reader;
+		let keep_flushing = sc.stall_low && !sc.closer;
+		let bg_board = Arc::clone(&board);
 		programs.push(Box::new(move |_s: &Arc<Sched>, _me: usize| -> Result<(), String> {
 			let _g = rt_handle.enter();
+			if rotate_first {
+				tree.verif_rotate().map_err(|e| format!("rotate: {e}"))?;
+			}
 			for _ in 0..2 {
 				tree.verif_flush_oldest().map_err(|e| format!("flush: {e}"))?;
 			}
 			tree.verif_compact_round().map_err(|e| format!("compact: {e}"))?;
 			tree.verif_flush_oldest().map_err(|e| format!("flush: {e}"))?;
+			if keep_flushing {
+				// like the real background flusher: as long as committers are running, every
+				// rotated memtable eventually gets flushed (the thread blocks while there is none)
+				loop {
+					let all_done = || bg_board.returned.iter().all(|r| r.load(Ordering::SeqCst));
+					let idle = || tree.verif_stall_counts().0 == 0 && !all_done();
+					surrealkv::verif::acquire_point_public("bg:wait-for-work", &idle);
+					if tree.verif_stall_counts().0 == 0 {
+						break;
+					}
+					tree.verif_flush_oldest().map_err(|e| format!("flush: {e}"))?;
+				}
+			}
 			Ok(())
 		}));
 	}
@@ -781,7 +819,8 @@ fn run_schedule(sc: &Scenario, prefix: &[usize]) -> Result<Outcome, String> {
 				let f = strip(first);
 				// get and scan must agree with each other too
 				let same = |v: &str| f.contains(&format!("get=Some(\"{v}\") scan=Some(\"{v}\")"));
-				if !(same("base") || same(&token(0)) || same(&token(1))) {
+				// "base" is never admissible: the newer version "mem" was committed before any thread started
+				if !(same("mem") || same(&token(0)) || same(&token(1))) {
 					out.failure = Some(("reader-view-inconsistent".into(), format!("reader saw {f}")));
 					return Ok(out);
 				}
